@@ -752,6 +752,20 @@ fn to_array(mac: &[u8]) -> Option<[u8; 6]> {
     mac[0..6].try_into().ok()
 }
 
+/// Verification hooks: the private helpers the receive path runs on every packet.
+#[cfg(feature = "verif")]
+pub mod verif {
+    pub fn log_options(req: &super::dhcppkt::Dhcp) {
+        super::log_options(req)
+    }
+    pub fn format_client(req: &super::dhcppkt::Dhcp) -> String {
+        super::format_client(req)
+    }
+    pub fn to_array(mac: &[u8]) -> Option<[u8; 6]> {
+        super::to_array(mac)
+    }
+}
+
 enum RunError {
     ListenError(std::io::Error),
     RecvError(std::io::Error),
@@ -969,6 +983,29 @@ impl DhcpService {
             rawsock,
             pool,
             serverids,
+            listener,
+        })
+    }
+
+    /// Verification hook: the same service object on a caller supplied lease store, listening on
+    /// an ephemeral UDP port instead of 67, so that `update_metrics`, `get_leases` and the HTTP
+    /// API can be driven.
+    #[cfg(feature = "verif")]
+    pub async fn verif_new(
+        netinfo: erbium_net::netinfo::SharedNetInfo,
+        conf: super::config::SharedConfig,
+        pool: pool::Pool,
+    ) -> Result<Self, String> {
+        let rawsock = Arc::new(raw::RawSocket::new(raw::EthProto::ALL).map_err(|e| e.to_string())?);
+        let listener = UdpSocket::bind(&[UNSPECIFIED4.with_port(0)])
+            .await
+            .map_err(|e| e.to_string())?;
+        Ok(Self {
+            netinfo,
+            conf,
+            rawsock,
+            pool: Arc::new(sync::Mutex::new(pool)),
+            serverids: Arc::new(sync::Mutex::new(std::collections::HashSet::new())),
             listener,
         })
     }
